@@ -142,9 +142,9 @@ func VerifHarness_C05_pair() {
 	timerUsed := false
 	for k := 0; k < K; k++ {
 		up := a.r.s.IsConnected() && b.r.s.IsConnected()
-		switch verifConc(ndInt("event", 0, 6+verifTier())) {
+		switch verifConc(ndInt("event", 0, 7)) {
 		case 7:
-			// thorough: one timer expiry somewhere in the history (idle interval or silent peer, on either side)
+			// one timer expiry somewhere in the history (idle interval or silent peer, on either side)
 			verifCase("timer")
 			verifAssume(!timerUsed)
 			timerUsed = true
@@ -153,7 +153,7 @@ func VerifHarness_C05_pair() {
 				s = b
 			}
 			verifAssume(s.r.s.IsConnected())
-			if ndBool("peer-timeout") {
+			if verifTier() == 1 && ndBool("peer-timeout") {
 				s.r.s.Timeout(s.r.s, internal.PeerTimeout)
 			} else {
 				s.r.s.Timeout(s.r.s, internal.NeedHeartbeat)
